@@ -22,16 +22,16 @@ namespace Hc.Props.C13
 theorem setup_no_panic (c : Nat) (st : Hc.PairSetup.St) (i : Hc.PairSetup.In) :
     (Hc.PairSetup.step true c st i).2.1 ≠ .panic := by
   cases i with
-  | m1 => simp only [Hc.PairSetup.step]; split <;> simp
+  | m1 => simp only [Hc.PairSetup.step, Hc.PairSetup.stepR]; split <;> simp
   | m3 A p =>
-    simp only [Hc.PairSetup.step]
+    simp only [Hc.PairSetup.step, Hc.PairSetup.stepR]
     split
     · simp
     · cases A with
       | bad n => simp
       | good a => simp only; split <;> simp
   | m5 d =>
-    simp only [Hc.PairSetup.step]
+    simp only [Hc.PairSetup.step, Hc.PairSetup.stepR]
     split
     · simp
     · cases d with
@@ -45,21 +45,21 @@ theorem setup_no_panic (c : Nat) (st : Hc.PairSetup.St) (i : Hc.PairSetup.In) :
           cases key with
           | badLen n => simp
           | pk kn => simp only; split <;> simp
-  | badMethod => simp [Hc.PairSetup.step]
-  | badState n => simp [Hc.PairSetup.step]
-  | malformedTlv => simp [Hc.PairSetup.step]
+  | badMethod => simp [Hc.PairSetup.step, Hc.PairSetup.stepR]
+  | badState n => simp [Hc.PairSetup.step, Hc.PairSetup.stepR]
+  | malformedTlv => simp [Hc.PairSetup.step, Hc.PairSetup.stepR]
 
 /-- pair-verify: same, for every state, pairing store and message -/
 theorem verify_no_panic (c : Nat) (db : Hc.PairVerify.Store) (st : Hc.PairVerify.St) (i : Hc.PairVerify.In) :
     (Hc.PairVerify.step true c db st i).2 ≠ .panic := by
   cases i with
   | v1 key =>
-    simp only [Hc.PairVerify.step]
+    simp only [Hc.PairVerify.step, Hc.PairVerify.stepR]
     split
     · simp
     · cases key <;> simp
   | v3 d =>
-    simp only [Hc.PairVerify.step]
+    simp only [Hc.PairVerify.step, Hc.PairVerify.stepR]
     split
     · simp
     · cases d with
@@ -73,9 +73,9 @@ theorem verify_no_panic (c : Nat) (db : Hc.PairVerify.Store) (st : Hc.PairVerify
           · simp
           · simp
           · split <;> simp
-  | badMethod => simp [Hc.PairVerify.step]
-  | badState n => simp [Hc.PairVerify.step]
-  | malformedTlv => simp [Hc.PairVerify.step]
+  | badMethod => simp [Hc.PairVerify.step, Hc.PairVerify.stepR]
+  | badState n => simp [Hc.PairVerify.step, Hc.PairVerify.stepR]
+  | malformedTlv => simp [Hc.PairVerify.step, Hc.PairVerify.stepR]
 
 /-- /pairings: every request is answered, also an add that cannot be stored -/
 theorem pairings_no_panic (s : Hc.Pairings.Store) (i : Hc.Pairings.In) :
@@ -104,24 +104,25 @@ theorem verify_recovers (c e name pk : Nat) (db : Hc.PairVerify.Store) (hdb : db
     let r1 := Hc.PairVerify.step true c db st (.v1 (.good e))
     let st1 := if r1.2 = .http500 then (Hc.PairVerify.step true c db r1.1 (.v1 (.good e))).1 else r1.1
     let fin := Hc.PairVerify.step true c db st1
-      (.v3 (.sealed (.ofEph c e) true true (.tlv name (.valid pk (some e) name c))))
+      (.v3 (.sealed (.ofEph c st1.epoch e) true true (.tlv name (.valid pk (some e) name c st1.epoch))))
     (r1.2 = .http500 ∨ r1.2 = .tlv 2 none true true) ∧
     fin.2 = .tlv 4 none false false ∧ fin.1.installed = some (some e) := by
   cases hs : st.step <;>
-    simp [Hc.PairVerify.step, hs, Hc.PairVerify.openSealed, Hc.PairVerify.sigOk, hdb]
+    simp [Hc.PairVerify.step, Hc.PairVerify.stepR, hs, Hc.PairVerify.openSealed, Hc.PairVerify.sigOk, hdb]
 
 /-- pair-setup on the same connection, from ANY controller state: a start request is accepted after at most one
     rejected start request; then the right setup-code proof is accepted and the key exchange stores the pairing. -/
 theorem setup_recovers (c a name key : Nat) (st : Hc.PairSetup.St) :
     let r1 := Hc.PairSetup.step true c st .m1
     let st1 := if r1.2.1 = .http500 then (Hc.PairSetup.step true c r1.1 .m1).1 else r1.1
-    let r3 := Hc.PairSetup.step true c st1 (.m3 (.good a) (.validFor c a true))
+    let r3 := Hc.PairSetup.step true c st1 (.m3 (.good a) (.validFor c st1.epoch a true))
     let r5 := Hc.PairSetup.step true c r3.1
-      (.m5 (.sealed (.ofS (.srp c a)) true true (.tlv name (.pk key) (.valid key (.srp c a) name key))))
+      (.m5 (.sealed (.ofS (.srp c st1.epoch a)) true true (.tlv name (.pk key) (.valid key (.srp c st1.epoch a) name key))))
     (r1.2.1 = .http500 ∨ r1.2.1 = .tlv 2 none true false false) ∧
     r3.2.1 = .tlv 4 none false true false ∧ r5.2.2 = some (name, key) := by
-  cases hs : st.step <;>
-    simp [Hc.PairSetup.step, hs, Hc.PairSetup.reset, Hc.PairSetup.openSealed, Hc.PairSetup.sigOk]
+  cases hs : st.step <;> cases hst : st.started <;>
+    simp [Hc.PairSetup.step, Hc.PairSetup.stepR, hs, hst, Hc.PairSetup.reset, Hc.PairSetup.openSealed, Hc.PairSetup.sigOk,
+      Hc.PairSetup.proofOk]
 
 /-- a new connection (or one reopened after close) starts from the initial state whatever happened before,
     so by the two theorems above (with `st := init`) an honest handshake on it succeeds at once -/
